@@ -424,8 +424,8 @@ def run(ctx):
         ctx.violation("tgen", {"error": str(e)}, "C27.tgen: cannot regenerate facts from source: %s" % e, no_input=True)
         return
     rng = ctx.rng
-    n_num, n_coll = (5, 3) if ctx.quick else (40, 24)
-    per_num, per_coll = (220, 120) if ctx.quick else (250, 150)
+    n_num, n_coll = (4, 3) if ctx.quick else (40, 24)
+    per_num, per_coll = (220, 110) if ctx.quick else (250, 150)
     maxlen = 30 if ctx.quick else 60
     base = os.path.join(ctx.work, "pkgs")
     pkgs = []       # (dir, kind, cases)
